@@ -396,8 +396,10 @@ fn any_frame<'a>(payload: &'a [u8; 4]) -> (StreamRef<'a>, u64, usize, bool) {
 
 // The step is written once and expanded into both harnesses.  `$deep` says which cut is active under
 // Kani (decides how the recorded values are read); `$cov` is kani::cover for the first harness and
-// nothing for the second, which keeps only two covers: its counterexample playback (one trace per
-// cover) otherwise exceeds the 16 GB given to a check.
+// nothing for the second, which keeps two covers only (it is the slower one: ~4.3 M SAT variables).
+// Measured: under a mutation Kani reports the failing check of the second harness, but
+// kani-driver's concrete playback for it dies (allocation failure at 16 GB, killed at 20 GB), so
+// the driver answers "inconclusive" (exit 2) for it; the first harness reproduces natively.
 macro_rules! cov_on {
     ($c:expr, $t:literal) => {
         kani::cover!($c, $t)
